@@ -20,6 +20,7 @@ from vmon.simkit import Top, Mon, simulate, bits
 from vmon.work.mux import Probe
 from vmon.props.c11 import ProbeAction
 from vmon.props.c16 import min_aw as gpio_min_aw
+from vmon.models.csrmux import f3_unsatisfiable
 
 from amaranth import Signal, Cat, Value
 from amaranth_soc import csr, event, gpio, wishbone
@@ -95,7 +96,13 @@ class Build:
                     pass
             if not ok:
                 return None
-            mux = csr.Multiplexer(mm, shadow_overlaps=rng.choice([None, None, 1, 2]))
+            overlaps = rng.choice([None, None, 1, 2])
+            res = list(mm.resources())
+            for acc in ("readable", "writable"):
+                ranges = [(s_, e_) for p_, _n, (s_, e_) in res if getattr(p_.element.access, acc)()]
+                if f3_unsatisfiable(ranges, overlaps):
+                    overlaps = None      # the multiplexer refuses a sharing limit no shadow size can satisfy (F3, fixed)
+            mux = csr.Multiplexer(mm, shadow_overlaps=overlaps)
             self.add_mod(mux)
             self.kinds.add("multiplexer")
             self.claims[id(mm)] = "csr"
